@@ -50,6 +50,12 @@ type PetQuery struct {
 	Lions   []*BigSdbCat
 	Typed   []PetI // [Pet]: a slice typed by a Go interface, mixing the bound types
 	DogCopy Dog    // Dog: a struct VALUE (not a pointer) under an object-typed field
+	// the query root type implements Pet itself (relay style) and is handed out under Pet-typed fields
+	Name   string
+	Buddy  interface{}
+	Twin   *PetQuery
+	Me     interface{}
+	WithMe []interface{}
 }
 
 // PetRoot is the root object.
@@ -81,7 +87,8 @@ func PetsModelV(variant int) *model.Schema {
 		{Kind: model.Object, Name: "Cat", Interfaces: []string{"Pet"}, Dirs: goDir(catGo), Fields: []*model.FieldDef{f("name", str), f("lives", integer), f("buddy", model.Named("Pet")), f("twin", model.Named("Cat"))}},
 		{Kind: model.Object, Name: "Dog", Interfaces: []string{"Pet"}, Fields: []*model.FieldDef{f("name", str), f("tricks", model.ListOf(str)), f("buddy", model.Named("Pet")), f("twin", model.Named("Dog"))}},
 		{Kind: model.Union, Name: "Animal", Members: members},
-		{Kind: model.Object, Name: "Query", Fields: []*model.FieldDef{
+		{Kind: model.Object, Name: "Query", Interfaces: []string{"Pet"}, Fields: []*model.FieldDef{
+			f("name", str), f("buddy", model.Named("Pet")), f("twin", model.Named("Query")), f("me", model.Named("Pet")), f("withMe", model.ListOf(model.Named("Pet"))),
 			f("pets", model.ListOf(model.Named("Pet"))), f("animals", model.ListOf(model.Named("Animal"))), f("pet", model.Named("Pet")), f("animal", model.Named("Animal")),
 			f("cats", model.ListOf(model.Named("Cat"))), f("lions", model.ListOf(model.Named("Lion"))),
 			f("typed", model.ListOf(model.Named("Pet"))), f("dogCopy", model.Named("Dog"))}},
@@ -120,8 +127,10 @@ func PetsData(variant int) (*PetRoot, *model.Graph) {
 	for _, o := range ro {
 		q.Typed = append(q.Typed, o.(PetI))
 	}
-	nq := node("Query", map[string]interface{}{"pets": model.VList(rn), "animals": model.VList(rn), "pet": rn[0], "animal": rn[1],
+	q.Name, q.Buddy, q.Twin, q.Me, q.WithMe = "the root", d1, q, q, []interface{}{d1, q, c2}
+	nq := node("Query", map[string]interface{}{"name": "the root", "buddy": nd1,"pets": model.VList(rn), "animals": model.VList(rn), "pet": rn[0], "animal": rn[1],
 		"cats": model.VList{nc1, nc2}, "lions": model.VList{nl1}, "typed": model.VList(rn), "dogCopy": nd1})
+	nq.F["twin"], nq.F["me"], nq.F["withMe"] = nq, nq, model.VList{nd1, nq, nc2}
 	root.F["query"] = nq
 	return &PetRoot{Query: q}, g
 }
